@@ -18,6 +18,9 @@ if [ "$what" = all ] || [ "$what" = vsched ]; then
   go build -o bin/rewrite ./tools/rewrite
   python3 tools/mksched.py > .work/sched.json
   go build -tags "verif vsched" -overlay .work/sched.json -o bin/vsched ./cmd/vsched
+  # the ugo command with the same overlay, its main() replaced by the harness of shim/cmdharness (C09 family cmd-ugo)
+  here="$PWD"
+  (cd /repo && go build -tags "verif vsched" -overlay "$here/.work/schedcmd.json" -o "$here/bin/vsched-cmd" ./cmd/ugo)
 fi
 if [ "$what" = all ] || [ "$what" = vsched ] || [ "$what" = vrace ]; then
   # race pass of C08: plain build of /repo's working tree with the race detector
